@@ -74,11 +74,16 @@ def mc_legs(rep, legs, pol, liveness=True, timeout=1500):
 
 # ------------------------------------------------------------------ real runs
 class Case:
-    """One stimulus for a run of the binary."""
+    """One stimulus for a run of the binary.
+    mode: "stdin" (regular file on fd 0), "pipe" (pipe on fd 0), "file" (FILE operand, output
+    FILE.bz2 / FILE.out read back), "cfile" (-c FILE).  shim: dict of VERIF_IO_* variables
+    (short reads / writes through harness/preload_io.c)."""
 
-    def __init__(self, label, args, data, env, expect_out=None, expect_fail=False, kind=None, timeout=30):
+    def __init__(self, label, args, data, env, expect_out=None, expect_fail=False, kind=None, timeout=30,
+                 mode="stdin", shim=None, outpipe=False):
         self.label, self.args, self.data, self.env = label, args, data, env
         self.expect_out, self.expect_fail, self.kind, self.timeout = expect_out, expect_fail, kind, timeout
+        self.mode, self.shim, self.outpipe = mode, shim, outpipe
 
 
 import itertools
@@ -87,13 +92,35 @@ _case_id = itertools.count(1)
 
 def run_cases(exe, cases, par=None):
     d = vlib.subdir("in")
+    shim = vlib.build_shim() if any(c.shim for c in cases) else None
 
     def go(c):
-        p = os.path.join(d, "i%d_%d" % (os.getpid(), next(_case_id)))
-        with open(p, "wb") as f:
-            f.write(c.data)
-        t = campaign.traced_run(exe, c.args, c.label, stdin_file=p, env=c.env, timeout=c.timeout, kind=c.kind)
-        os.unlink(p)
+        n = next(_case_id)
+        env = dict(c.env)
+        if c.shim:
+            env.update(c.shim)
+            env["LD_PRELOAD"] = shim
+        if c.mode in ("file", "cfile"):
+            wd = os.path.join(d, "w%d_%d" % (os.getpid(), n))
+            os.makedirs(wd)
+            name = "x.bz2" if c.kind == "expand" else "x"
+            with open(os.path.join(wd, name), "wb") as f:
+                f.write(c.data)
+            args = list(c.args) + (["-c"] if c.mode == "cfile" else ["-k"]) + [name]
+            t = campaign.traced_run(exe, args, c.label, env=env, timeout=c.timeout, kind=c.kind, cwd=wd)
+            if c.mode == "file":
+                outn = os.path.join(wd, "x" if c.kind == "expand" else "x.bz2")
+                t.run.out = open(outn, "rb").read() if os.path.exists(outn) else b""
+                t.outfile_exists = os.path.exists(outn)
+            shutil.rmtree(wd, ignore_errors=True)
+        elif c.mode == "pipe":
+            t = campaign.traced_run(exe, c.args, c.label, stdin=c.data, env=env, timeout=c.timeout, kind=c.kind)
+        else:
+            p = os.path.join(d, "i%d_%d" % (os.getpid(), n))
+            with open(p, "wb") as f:
+                f.write(c.data)
+            t = campaign.traced_run(exe, c.args, c.label, stdin_file=p, env=env, timeout=c.timeout, kind=c.kind)
+            os.unlink(p)
         t.case = c
         return t
     return campaign.parallel(go, cases, par=par)
